@@ -342,3 +342,15 @@ def check(tier: str) -> int:
         if not flags.get(need):
             rep.notes.append(f"generator self-check: predicate {need} never reached")
     return rep.finish()
+
+
+def replay(path: str) -> int:
+    import json
+    d = json.load(open(path))
+    c = d.get("case") or d
+    r = run_script(bool(c.get("fast")), c.get("ntasks", 5), c["ops"])
+    for i in range(0, len(r.ops), 2):
+        print(OPN[r.ops[i]], r.ops[i + 1], r.outs[i * 2:i * 2 + 4])
+    for m in r.mon:
+        print("MONITOR:", m)
+    return 1 if r.mon else 0
